@@ -244,6 +244,11 @@ func execute(t *testing.T, w *World, rc *RunCfg, fk *Fake, rep *vh.Report) (out 
 		// of scripted errors / stale tree heads, so a counted number of 120 s waits is enough for a correct fetcher.
 		<-pubDone
 		rounds := 12 + rc.ErrBudget + len(fk.sthScript)
+		fk.mu.Lock()
+		for _, q := range fk.reqScript {
+			rounds += len(q) // (only the errors among them can cost a pause)
+		}
+		fk.mu.Unlock()
 		over := func() bool {
 			select {
 			case <-finished:
